@@ -1089,29 +1089,30 @@ def compile_comprehension(compiler, expr, root, parts, final):
                 generators.append(
                     ast.comprehension(
                         target=v[0],
-                        iter=v[1].expr,
+                        iter=v[1].force_expr,
                         ifs=[],
                         is_async=int(tagname == "afor"),
                     )
                 )
             elif tagname == "setv":
+                value = v[1].force_expr
                 generators.append(
                     ast.comprehension(
                         target=v[0],
-                        iter=asty.Tuple(v[1], elts=[v[1].expr], ctx=ast.Load()),
+                        iter=asty.Tuple(value, elts=[value], ctx=ast.Load()),
                         ifs=[],
                         is_async=0,
                     )
                 )
             elif tagname == "if":
-                generators[-1].ifs.append(v.expr)
+                generators[-1].ifs.append(v.force_expr)
             else:
                 raise ValueError("can't happen")
         if node_class is asty.DictComp:
             return asty.DictComp(
-                expr, key=key.expr, value=(elt and elt.expr), generators=generators
+                expr, key=key.force_expr, value=(elt and elt.force_expr), generators=generators
             )
-        return node_class(expr, elt=elt.expr, generators=generators)
+        return node_class(expr, elt=elt.force_expr, generators=generators)
 
 
 # ------------------------------------------------
@@ -1322,7 +1323,7 @@ def compile_match_expression(compiler, expr, root, subject, clauses):
                         kw_defaults=[],
                         defaults=[],
                     ),
-                    body=guard.stmts + [asty.Return(guard.expr, value=guard.expr)],
+                    body=guard.stmts + [asty.Return(guard, value=guard.force_expr)],
                     decorator_list=[],
                     **({"type_params": []} if PY3_12 else {}),
                 )
